@@ -58,8 +58,8 @@ func main() {
 type tierCfg struct {
 	Histories []History
 	Scheds    func(h History, s0 *RunLog) []Sched // deviations from S0 explored per history
-	D2Every   int                                  // depth 2 on every n-th distinct untorn image of the S0 runs
-	EagerOn   string                               // which images are also reopened with the writer running during the scan
+	D2Every   int                                 // depth 2 on every n-th distinct untorn image of the S0 runs
+	EagerOn   string                              // which images are also reopened with the writer running during the scan
 	ContTo    int
 }
 
@@ -72,6 +72,7 @@ func tierConfig() tierCfg {
 				hist("promote-one", "K1"),
 				hist("one-at-a-time-then-two-at-once", "I1 C1 I2 I3 C3"),
 				hist("confirmed-inserts-restart-insert-confirm", "K1 K2 X I3 C3"),
+				hist("two-at-once-then-late-confirm", "I1 I2 C2 C1"),
 			},
 			Scheds:  func(History, *RunLog) []Sched { return nil },
 			D2Every: 60,
@@ -84,6 +85,8 @@ func tierConfig() tierCfg {
 			hist("promote-one", "K1"),
 			hist("one-at-a-time-then-two-at-once", "I1 C1 I2 I3 C3"),
 			hist("confirmed-inserts-restart-insert-confirm", "K1 K2 X I3 C3"),
+			hist("two-at-once-then-late-confirm", "I1 I2 C2 C1"),
+			hist("late-confirms-around-a-restart", "I1 I2 C2 X C1 K3"),
 			hist("every-block-confirmed-on-arrival", "K1 K2 K3 K4 K5"),
 			hist("one-at-a-time-to-4", "I1 C1 I2 C2 I3 C3 I4 C4"),
 			hist("three-at-once", "K1 I2 I3 I4 C4"),
@@ -95,7 +98,7 @@ func tierConfig() tierCfg {
 			hist("long", "K1 K2 K3 I4 I5 I6 C6"),
 		},
 		Scheds:  thoroughScheds,
-		D2Every: 12,
+		D2Every: 20,
 		EagerOn: "wal-nonempty",
 		ContTo:  5,
 	}
@@ -112,7 +115,7 @@ func thoroughScheds(h History, s0 *RunLog) []Sched {
 			if j > n-1 {
 				continue
 			}
-			for _, perm := range []int{0, 1, 2, 3, 5, 9} {
+			for _, perm := range []int{0, 1, 3} {
 				if span == 2 && perm != 0 {
 					continue
 				}
@@ -631,7 +634,7 @@ func coordinator() {
 						r.Add("distinct_images:deviating:torn", 1)
 					}
 					plan = append(plan, &planned{run: ri, ci: ci, tear: t.n, tornName: name, tearKind: t.kind, digest: key, mode: "hold"})
-					if cfg.EagerOn == "wal-nonempty" && fileClass(ops[k].Path) == "wal" {
+					if cfg.EagerOn == "wal-nonempty" && isS0 && fileClass(ops[k].Path) == "wal" {
 						plan = append(plan, &planned{run: ri, ci: ci, tear: t.n, tornName: name, tearKind: t.kind, digest: key, mode: "eager", light: true})
 					}
 				}
@@ -644,6 +647,19 @@ func coordinator() {
 	r.Extra["histories"] = histInfo
 	r.Extra["wall_s_until_plan"] = time.Since(t0).Seconds()
 
+	if os.Getenv("C08_PLAN_ONLY") != "" {
+		nd2, neager := 0, 0
+		for _, p := range plan {
+			if p.d2 {
+				nd2++
+			}
+			if p.mode == "eager" {
+				neager++
+			}
+		}
+		fmt.Printf("plan: %d runs (%d effective), %d images to evaluate (%d of them eager/light), %d depth-2 expansions, %.1fs\n", len(runs), schedEffective, len(plan), neager, nd2, time.Since(t0).Seconds())
+		return
+	}
 	// ---- phase 3: evaluate
 	jobs := make([]*Job, 0, len(plan))
 	for i, p := range plan {
@@ -900,7 +916,7 @@ func describeBounds(r *core.Result, cfg tierCfg, setup *Setup) {
 	}
 	schedText := "S0 only (the writer drains at every foreground operation and whenever the node is idle)"
 	if core.Thorough() {
-		schedText = "S0, plus one deviation window each: from the start of step i to the start of step i+1 the writer may perform only k operations, k in {0,1,2,3,5,9}; from step i to step i+2: k = 0"
+		schedText = "S0, plus one deviation window each: from the start of step i to the start of step i+1 the writer may perform only k operations, k in {0,1,3} (held completely; stopped after a record's file write; stopped after its position index entry, before the bitcask's offset); from step i to step i+2: k = 0"
 	}
 	r.Extra["bounds"] = map[string]interface{}{
 		"chain_blocks":          blockTexts,
@@ -909,7 +925,7 @@ func describeBounds(r *core.Result, cfg tierCfg, setup *Setup) {
 		"schedules":             schedText,
 		"torn_variants":         "1 byte, every multiple of 256 bytes (where file offset + n is a multiple of 4096 it is a page boundary too), 1 byte short",
 		"depth2":                fmt.Sprintf("every %d-th distinct untorn image of the S0 runs; every cut of the recovery log + torn variants 1 byte / 1 byte short / record boundaries", cfg.D2Every),
-		"reopen_schedules":      "every image: the writer is held until NewBlockChain has returned, then redelivers; images whose write-ahead file is not empty (" + cfg.EagerOn + "): additionally the writer runs whenever the startup scan reads (clauses 1-6 only)",
+		"reopen_schedules":      "every image: the writer is held until NewBlockChain has returned, then redelivers; untorn images whose write-ahead file is not empty (thorough: also the torn write-ahead writes of the S0 runs): additionally the writer runs whenever the startup code reads (clauses 1-6 only)",
 		"continuation_to_block": cfg.ContTo,
 		"watched_addresses":     len(setup.Watch),
 	}
@@ -917,7 +933,7 @@ func describeBounds(r *core.Result, cfg tierCfg, setup *Setup) {
 	r.Assume = []string{
 		"crash model of the statement: process death. What survives is the sequence of completed operations plus a prefix of the one in flight; completed operations are not reordered (power loss is outside the statement); fsync is therefore a no-op for the image. One operation is in flight at the crash (the foreground's and the writer's operations are serialised by the gate)",
 		"goleveldb Put/Delete/batch Write are atomic and ordered (its journal is check-summed; a torn journal record is dropped at open): the LevelDB of a crash image is rebuilt from the logged logical operations",
-		fmt.Sprintf("%d deputies (a block needs one confirm besides the miner's signature); the node under test is an observer (it never signs, so it never rewrites a stable block with further confirms); one fixed linear chain b1..b%d covering every record kind (blocks, height index, accounts, version/storage/asset tries, code, asset indexes, candidate list); forks are not part of the workloads (pruned forks only live in memory)", deputies, chainLen),
+		fmt.Sprintf("%d deputies (a block needs one confirm besides the miner's signature; the confirm of a block that became stable through a confirmed descendant rewrites the stored block record); the node under test is an observer (it never signs itself); one fixed linear chain b1..b%d covering every record kind (blocks, height index, accounts, version/storage/asset tries, code, asset indexes, candidate list); forks are not part of the workloads (pruned forks only live in memory)", deputies, chainLen),
 		"the engine's own goroutines (feeds, batch confirms, delayed fetches) are dropped: none of them writes to the store on an observer",
 		"the writer's tmp.data operations (BeansDB.afterBlock) are gate points like its bitcask operations; the pending-index bookkeeping goroutine (FileQueue.afterPut) is not a scheduling point of its own: the gate only distinguishes 'records pending' from 'no record pending'",
 		"Go map iteration order inside account.Manager.Save / TrieDatabase.Commit (the order of the trie and code records of one block) is fixed to the sorted order (instrumenter pass maprange, policy 1), so that logs and counts are reproducible",
